@@ -1,4 +1,4 @@
-import HsVerif.Proofs.ReplicaRule
+import HsVerif.Proofs.ReplicaPair
 import HsVerif.Proofs.Safety
 import HsVerif.Props.C01Sys
 import HsVerif.Props.C03Cur
